@@ -27,6 +27,8 @@ pub struct Args {
     pub run_index: Option<u64>,
     /// index of the first run of the batch (sub-ranges are used by abort containment)
     pub first_run: u64,
+    /// skip the per-property extras and the determinism self-check (containment sub-runs)
+    pub no_extras: bool,
     pub write_evidence: bool,
     pub log_hashes: bool,
     pub max_seconds: Option<u64>,
@@ -718,25 +720,23 @@ pub fn cmd_check(args: &Args) -> i32 {
     unlisted.sort_by_key(|f| f.run);
 
     // determinism self-check of this very binary against this very tree: the first runs again,
-    // single-threaded and at full width; every per-run event-log hash must agree
-    let det_runs = 1500u64.min(runs);
+    // single-threaded and at full width; every per-run event-log hash must agree. (The harness
+    // alone is deterministic - ./check selftest-determinism - so a divergence here means the
+    // code under test shares state between parser instances or reads something it should not;
+    // it is fatal only when the batch found nothing to report, see below.)
+    let det_runs = if args.no_extras { 0 } else { 1500u64.min(runs) };
     let h1 = crate::selftest::hashes_for(prop.id(), args, det_runs, 1);
     let hn = crate::selftest::hashes_for(prop.id(), args, det_runs, args.threads.max(2));
     let diverging = h1.iter().zip(hn.iter()).filter(|(a, b)| a != b).count() + h1.len().abs_diff(hn.len());
-    if diverging > 0 {
-        eprintln!(
-            "check: HARNESS ERROR: {} of {} runs are not deterministic (event-log hash differs between a 1-worker and a {}-worker execution)",
-            diverging,
-            det_runs,
-            args.threads.max(2)
-        );
-        return 2;
-    }
-    let (mut extra, extra_violations) = match prop.id() {
+    let (mut extra, extra_violations) = if args.no_extras {
+        (EvidenceExtra { items: vec![] }, vec![])
+    } else {
+        match prop.id() {
         "C01" => crate::extra::c01_extra(args),
         "C18" => crate::extra::c18_extra(args, prop),
         "C20" => crate::extra::c20_extra(args, prop),
         _ => (EvidenceExtra { items: vec![] }, vec![]),
+        }
     };
 
     extra.items.push((
@@ -744,7 +744,7 @@ pub fn cmd_check(args: &Args) -> i32 {
         J::obj()
             .set("runs", J::Int(det_runs as i64))
             .set("executions", J::str(&format!("1 worker and {} workers, same process", args.threads.max(2))))
-            .set("diverging", J::Int(0))
+            .set("diverging", J::Int(diverging as i64))
             .set("note", J::str("hash of the full event log per run (schedule + every input/outcome pair of every build + verdict); the cross-process, cross-profile version is ./check selftest-determinism")),
     ));
     let mut reported = 0usize;
@@ -869,6 +869,18 @@ pub fn cmd_check(args: &Args) -> i32 {
         reported,
         known_hits.len()
     );
+    if diverging > 0 {
+        // The harness alone is deterministic (./check selftest-determinism on the unchanged tree),
+        // so this points at the code under test: state shared between parser instances, which
+        // C17's independence oracle judges. It is recorded and shouted, but it is not this
+        // property's verdict.
+        eprintln!(
+            "check: WARNING: {} of {} runs are not deterministic (event-log hash differs between a 1-worker and a {}-worker execution of the same seeds): the code under test shares state between parser instances or reads something outside its arguments",
+            diverging,
+            det_runs,
+            args.threads.max(2)
+        );
+    }
     if reported > 0 {
         1
     } else {
@@ -1011,6 +1023,7 @@ pub fn supervise(args: &Args, argv: &[String]) -> i32 {
         "--tier".into(),
         args.tier.clone(),
         "--no-evidence".into(),
+        "--no-extras".into(),
     ];
     let total = args.runs.unwrap_or_else(|| default_runs(prop.id(), &args.tier));
     let range_dies = |a: u64, n: u64| -> bool {
@@ -1101,7 +1114,7 @@ pub fn supervise(args: &Args, argv: &[String]) -> i32 {
     // evidence: what was covered before the killing run
     if args.write_evidence && run > args.first_run {
         let mut v2 = base.clone();
-        v2.retain(|a| a != "--no-evidence");
+        v2.retain(|a| a != "--no-evidence" && a != "--no-extras");
         v2.extend(["--first-run".into(), args.first_run.to_string(), "--runs".into(), (run - args.first_run).to_string()]);
         let _ = child_dies(&v2);
         let ev_path = format!("{}/evidence/{}.json", verif_dir(), prop.id());
